@@ -76,9 +76,101 @@ def traces(target, rng, tier):
     return out
 
 
+def _serial(bits, width, poly, reg):
+    for b in bits:
+        top = (reg >> (width - 1)) & 1
+        reg = (reg << 1) & ((1 << width) - 1)
+        if top ^ b: reg ^= poly
+    return reg
+
+
+def _rev(x, w):
+    return int(format(x, f"0{w}b")[::-1], 2)
+
+
+_POLY = {"poly5": 0x05, "poly16": 0x8005, "poly16h": 0x100B, "poly32": 0x04C11DB7}
+
+
+def _impl_fn(g):
+    """Python callable (reg, data) -> int evaluating LUNA's own expression through Amaranth's simulator, or None."""
+    from amaranth import Elaboratable, Module, Signal
+    from amaranth.sim import Simulator
+    from luna.gateware.usb.usb2.packet import USBTokenDetector, USBDataPacketCRC
+    from luna.gateware.usb.usb3.link.crc import compute_usb_crc5, HeaderPacketCRC, DataPacketPayloadCRC
+    table = {
+        "crc5_usb2": (0, 11, lambda c, d: USBTokenDetector._generate_crc_for_token(d)),
+        "crc5_usb3": (0, 11, lambda c, d: compute_usb_crc5(d)),
+        "crc16_usb2_rx": (16, 8, lambda c, d: USBDataPacketCRC()._generate_next_crc(c, d)),
+        "crc16_usb2_tx": (16, 8, lambda c, d: USBDataPacketCRC()._generate_next_crc(c, d)),
+        "crc16_usb3_next": (16, 32, lambda c, d: HeaderPacketCRC()._generate_next_crc(c, d)),
+        "crc32_word": (32, 32, lambda c, d: DataPacketPayloadCRC()._generate_next_full_crc(c, d)),
+        "crc32_3B": (32, 24, lambda c, d: DataPacketPayloadCRC()._generate_next_3B_crc(c, d)),
+        "crc32_2B": (32, 16, lambda c, d: DataPacketPayloadCRC()._generate_next_2B_crc(c, d)),
+        "crc32_1B": (32, 8, lambda c, d: DataPacketPayloadCRC()._generate_next_1B_crc(c, d)),
+    }
+    if g not in table:
+        return None
+    W, D, fn = table[g]
+
+    def run(reg, data):
+        class Wrap(Elaboratable):
+            def __init__(s):
+                s.c = Signal(max(W, 1)); s.d = Signal(D); s.o = Signal(max(W, 5) if W else 5)
+            def elaborate(s, platform):
+                m = Module(); m.d.comb += s.o.eq(fn(s.c, s.d)); return m
+        w = Wrap(); sim = Simulator(w); res = []
+        async def tb(ctx):
+            ctx.set(w.c, reg); ctx.set(w.d, data); await ctx.delay(1e-6); res.append(ctx.get(w.o))
+        sim.add_testbench(tb); sim.run()
+        return res[0]
+    return run
+
+
+def _confirm(g, poly, W, D, kind):
+    def cb(path, bdir, hdr):
+        outbit, v = path[0], path[1]
+        env = 0 if v == 0 else 1 << (v - 1)
+        if kind == "full":
+            reg, data = (1 << W) - 1, env
+            bits = [(data >> i) & 1 for i in range(D)]
+            expected = _rev(_serial(bits, W, _POLY[poly], reg) ^ ((1 << W) - 1), W)
+            regv = 0
+        else:
+            regv = env & ((1 << W) - 1); data = env >> W
+            bits = [(data >> i) & 1 for i in range(D)]
+            expected = _serial(bits, W, _POLY[poly], regv) if kind in ("step",) else None
+        fn = _impl_fn(g)
+        got = fn(regv, data) if fn else None
+        confirmed = (got is not None and expected is not None and got != expected)
+        return dict(property=PID, obligation=f"ob_{g}", kernel=g, describe="parallel XOR equations vs bit-serial reference",
+                    differing_output_bit=outbit, distinguishing_input=dict(register=regv, data=data),
+                    expected_reference=expected, implementation_value=got, confirmed_on_pysim=confirmed,
+                    how="affine normal forms of the regenerated equations differ from the reference; the all-zero input or a unit "
+                        "vector distinguishes two affine maps; LUNA's own expression was evaluated at that point with Amaranth's simulator")
+    return cb
+
+
 def obligations(targets, tier):
     t2, t3, t32 = targets
-    return [
+    obs = []
+    for g, poly, W, D in _STEP:
+        n = W + D
+        obs.append(tie.affine(f"ob_{g}", xt=g, nvars=n,
+                   spec_aff=f"crc_shifts aff axor (aconst {n} false) {poly} (map (avar {n}) (seq 0 {W})) (map (avar {n}) (seq {W} {D}))",
+                   describe=f"{g}: next-state equations = {D} bit-serial shifts, all {n}-bit inputs", confirm=_confirm(g, poly, W, D, "step")))
+    for g, W in _OUT:
+        obs.append(tie.affine(f"ob_{g}", xt=g, nvars=W, spec_aff=f"crc_finish aff anot (map (avar {W}) (seq 0 {W}))",
+                   describe=f"{g}: output stage = complement + bit reversal", confirm=_confirm(g, "poly16", W, 0, "out")))
+    for g, D in _OUTNEXT:
+        W = 32; n = W + D
+        obs.append(tie.affine(f"ob_{g}", xt=g, nvars=n,
+                   spec_aff=f"crc_finish aff anot (crc_shifts aff axor (aconst {n} false) poly32 (map (avar {n}) (seq 0 {W})) (map (avar {n}) (seq {W} {D})))",
+                   describe=f"{g}: look-ahead CRC32 output for a {D}-bit tail", confirm=_confirm(g, "poly32", W, D, "outnext")))
+    for g, poly, W, D in _FULL:
+        obs.append(tie.affine(f"ob_{g}", xt=g, nvars=D,
+                   spec_aff=f"crc_finish aff anot (crc_shifts aff axor (aconst {D} false) {poly} (map (aconst {D}) (repeat true {W})) (map (avar {D}) (seq 0 {D})))",
+                   describe=f"{g}: CRC5 of an 11-bit field", confirm=_confirm(g, poly, W, D, "full")))
+    return obs + [
         tie.corr("corr_crc16_usb2", t2, mstep="crc16mod_step", m0="reg_init 16",
                  describe="USBDataPacketCRC register/mux model vs simulator (random start/rx/tx patterns)"),
         tie.corr("corr_crc16_usb3", t3, mstep="crc16hmod_step", m0="reg_init 16",
@@ -195,8 +287,6 @@ def tie_theorems(targets, tier):
     for g, poly, W, D in _STEP:
         n = W + D
         s += f"""
-Definition {g}_aff : list aff :=
-  crc_shifts aff axor (aconst {n} false) {poly} (map (avar {n}) (seq 0 {W})) (map (avar {n}) (seq {W} {D})).
 Lemma {g}_wf : forallb (wf {n}) {g}_xt = true. Proof. vm_compute. reflexivity. Qed.
 Lemma {g}_forms : map (nf {n}) {g}_xt = {g}_aff. Proof. vm_compute. reflexivity. Qed.
 Theorem C30_{g} : forall env : nat -> bool,
@@ -211,7 +301,6 @@ Qed.
     for g, W in _OUT:
         n = W
         s += f"""
-Definition {g}_aff : list aff := crc_finish aff anot (map (avar {n}) (seq 0 {W})).
 Lemma {g}_wf : forallb (wf {n}) {g}_xt = true. Proof. vm_compute. reflexivity. Qed.
 Lemma {g}_forms : map (nf {n}) {g}_xt = {g}_aff. Proof. vm_compute. reflexivity. Qed.
 Theorem C30_{g} : forall env : nat -> bool,
@@ -226,8 +315,6 @@ Qed.
     for g, D in _OUTNEXT:
         W = 32; n = W + D
         s += f"""
-Definition {g}_aff : list aff :=
-  crc_finish aff anot (crc_shifts aff axor (aconst {n} false) poly32 (map (avar {n}) (seq 0 {W})) (map (avar {n}) (seq {W} {D}))).
 Lemma {g}_wf : forallb (wf {n}) {g}_xt = true. Proof. vm_compute. reflexivity. Qed.
 Lemma {g}_forms : map (nf {n}) {g}_xt = {g}_aff. Proof. vm_compute. reflexivity. Qed.
 Theorem C30_{g} : forall env : nat -> bool,
@@ -243,8 +330,6 @@ Qed.
     for g, poly, W, D in _FULL:
         n = D
         s += f"""
-Definition {g}_aff : list aff :=
-  crc_finish aff anot (crc_shifts aff axor (aconst {n} false) {poly} (map (aconst {n}) (repeat true {W})) (map (avar {n}) (seq 0 {D}))).
 Lemma {g}_wf : forallb (wf {n}) {g}_xt = true. Proof. vm_compute. reflexivity. Qed.
 Lemma {g}_forms : map (nf {n}) {g}_xt = {g}_aff. Proof. vm_compute. reflexivity. Qed.
 Theorem C30_{g} : forall env : nat -> bool,
